@@ -763,6 +763,27 @@ def clone_value_cases():
             POSFIELDS = OrderedDict([("jid", "identifier_gfa2"), ("sid1", "identifier_gfa2"), ("sid2", "identifier_gfa2")])
             NAME_FIELD = "jid"
         Join.register_extension(references=[("sid1", gfapy.line.segment.GFA2, "joins"), ("sid2", gfapy.line.segment.GFA2, "joins")])
+    if "K" not in gfapy.Line.EXTENSIONS:
+        class Walk(gfapy.Line):
+            RECORD_TYPE = "K"
+            POSFIELDS = OrderedDict([("kid", "identifier_gfa2"), ("steps", "oriented_identifier_list_gfa2")])      # oriented identifiers that are NOT references
+            NAME_FIELD = "kid"
+        Walk.register_extension()
+    for vlevel in (0, 1, 3):
+        k = gfapy.Line("K\tk1\ta+ c-\txx:i:1", version="gfa2", vlevel=vlevel)
+        k.get("steps")
+        try:
+            c = k.clone()
+        except Exception as e:
+            return "clone of an extension record with a list of oriented identifiers raised %s (level %d)" % (type(e).__name__, vlevel)
+        if str(c) != str(k) or not (c == k):
+            return "clone of %r: %r" % (str(k), str(c))
+        a, b = k._data["steps"], c._data["steps"]
+        if not isinstance(a, str) and (a is b or any(x is y for x in a for y in b)):
+            return "clone of %r shares the list of oriented identifiers (or its elements) with the original" % str(k)
+    r = gfapy.Line("S\ts1\t*\tLN:i:5\tSN:Z:chr1\tSO:i:0\tSR:i:0", dialect="rgfa")
+    if r.clone().dialect != r.dialect:
+        return "the clone of an rGFA line has dialect %r" % r.clone().dialect
     docs = {"gfa1": ["S\ta\t*", "S\tb\t*", "L\ta\t+\tb\t-\t2M", "C\ta\t+\tb\t+\t1\t3M", "P\tp\ta+,b-\t2M"],
             "gfa2": ["S\ta\t4\t*", "S\tb\t4\t*", "E\te\ta+\tb-\t2\t4$\t2\t4$\t2M", "G\tg\ta+\tb-\t10\t*", "F\ta\tx+\t0\t4$\t0\t4\t*",
                      "O\to\ta+ e+ b-", "U\tu\ta b e o", "J\tj\ta\tb"]}
